@@ -7,7 +7,8 @@ This script re-applies the patch at /repo HEAD in a scratch worktree, runs the p
 /verif/seeded/<new-id>/ with an honest meta.json (detected = own check at HEAD; detected_blind = first run)."""
 import sys, os, subprocess, json, shutil, re
 binp, logdir, prop, k, sid = sys.argv[1:6]
-sd = f"/tmp/seed3-out-{prop}/{k}"
+rnd = int(os.environ.get("SEED_ROUND", "3"))
+sd = os.environ.get("SEED_DIR_PREFIX", "/tmp/seed3-out-") + f"{prop}/{k}"
 blind = open(f"{logdir}/{prop}-{k}.log").read()
 m = re.search(r"RESULT valid=(\w+) detected=(\w+)", blind)
 if not m or m.group(1) != "yes":
@@ -43,16 +44,17 @@ for line in readme.splitlines():
     if re.search(r"trigger", line, re.I):
         trig = line.strip()[:400]; break
 meta = {
- "property": prop, "round": 3,
+ "property": prop, "round": rnd,
  "breaks": readme[:1200],
  "needs_to_manifest": trig or "see README.md",
- "ran": ["tools/seedcheck.sh at the commit the seed was written against (74fdcd6): demo passes without the patch, fails with it; go build ./... and go test of the touched packages pass with it",
+ "ran": ["tools/seedcheck.sh at the commit the seed was written against (see head_at_blind_validation): demo passes without the patch, fails with it; go build ./... and go test of the touched packages pass with it",
          "tools/seedkeep3.py: patch re-applied at /repo HEAD in a scratch worktree, ./bin/verifcheck -property %s -tier quick against it" % prop],
  "detected": rc == 1,
  "detected_blind": m.group(2) == "yes",
  "detected_by": "",
  "reported": [{"rule": r, "construct": c} for r, c in viol][:6],
  "cross_detected_by": cross,
+ "head_at_blind_validation": os.environ.get("SEED_BLIND_BASE", "74fdcd6"),
  "head_at_validation": subprocess.run(["git","-C","/repo","rev-parse","--short","HEAD"],capture_output=True,text=True).stdout.strip(),
 }
 json.dump(meta, open(os.path.join(dst,"meta.json"),"w"), indent=1)
